@@ -50,7 +50,7 @@ def _gen_script(r: random.Random, maxlen: int) -> list:
         if not in_txn and x > 0.9:
             s.append([r.choice(["commit", "rollback"]), r.randint(0, 1), r.choice(["sql", "api"])])
             continue
-        s.append([r.choice(["ins_own", "ins_own", "ins_sh", "ins_sh", "upd_own", "del_own", "fail", "sel"]), r.randint(0, 1)])
+        s.append([r.choice(["ins_own", "ins_own", "ins_sh", "ins_sh", "upd_own", "del_own", "fail", "sel", "merge_own"]), r.randint(0, 1)])
     return s
 
 
@@ -77,7 +77,7 @@ def gen_cases(tier: str, seed: int):
     for _ in range(npairs):
         scripts = [_gen_script(r, 4), _gen_script(r, 4)]
         for order in _interleavings([len(s) for s in scripts]):
-            yield {"scripts": scripts, "order": order}
+            yield {"scripts": scripts, "order": order, "nodb": len(order) % 3 == 0}
     nsamp = 150 if tier == "quick" else 6000
     for _ in range(nsamp):
         k = r.choice([2, 3, 3])
@@ -94,7 +94,9 @@ def setup_worker(env: core.Env) -> None:
     fs = core.new_fs()
     conns = [fs.connect("db1", "s1") for _ in range(3)]
     curs = [[c.cursor(), c.cursor(core.DictCursor) if False else c.cursor()] for c in conns]
-    _state.update(fs=fs, conns=conns, curs=curs, raw=core.raw_root(fs).cursor(), uid=itertools.count(1))
+    nodb_conns = [fs.connect() for _ in range(3)]
+    nodb_curs = [[c.cursor(), c.cursor()] for c in nodb_conns]
+    _state.update(fs=fs, conns=conns, curs=curs, raw=core.raw_root(fs).cursor(), uid=itertools.count(1), nodb_conns=nodb_conns, nodb_curs=nodb_curs)
 
 
 def _apply(table: Counter, op: tuple) -> Counter:
@@ -106,6 +108,13 @@ def _apply(table: Counter, op: tuple) -> Counter:
         t = Counter({(i, v + 1): n for (i, v), n in t.items()})
     elif kind == "del":
         t = Counter({(i, v): n for (i, v), n in t.items() if i % 2 != 0})
+    elif kind == "merge":
+        # MERGE ... USING (id = op[1], v = 500) : update v of the matching row(s) or insert (id, 500)
+        if any(i == op[1] for (i, _v) in t):
+            t = Counter({((i, 500) if i == op[1] else (i, v)): n for (i, v), n in t.items()})
+            # rows that collapse onto the same (id, 500) keep their multiplicity
+        else:
+            t[(op[1], 500)] += 1
     return t
 
 
@@ -123,6 +132,15 @@ def run_case(case: dict, env: core.Env) -> None:
         except Exception:  # noqa: BLE001
             pass
     tables = [f"T{i}" for i in range(k)] + ["SH"]
+    nodb = bool(case.get("nodb"))
+    P = "DB1.S1." if nodb else ""
+    if nodb:
+        conns, curs = _state["nodb_conns"], _state["nodb_curs"]
+        for i in range(3):
+            try:
+                conns[i].rollback()
+            except Exception:  # noqa: BLE001
+                pass
     for t in tables:
         setup.execute(f"CREATE OR REPLACE TABLE {t} (ID INT, V INT)")
     seed_rows = {}
@@ -157,6 +175,8 @@ def run_case(case: dict, env: core.Env) -> None:
         op = scripts[ci][pos[ci]]
         pos[ci] += 1
         kind, cidx = op[0], op[1]
+        if kind == "merge_own" and nodb:
+            kind = "ins_own"  # MERGE needs a current schema for its helper table (a C07 known finding)
         cur = curs[ci][cidx]
         own = f"T{ci}"
         env.cover("op", f"{kind}/{'in-txn' if txn[ci] is not None else 'autocommit'}")
@@ -178,14 +198,19 @@ def run_case(case: dict, env: core.Env) -> None:
         elif kind in ("ins_own", "ins_sh"):
             t = own if kind == "ins_own" else "SH"
             row = (next(_state["uid"]), ci)
-            out = core.run_stmt(cur, f"INSERT INTO {t} VALUES ({row[0]}, {row[1]})")
+            out = core.run_stmt(cur, f"INSERT INTO {P}{t} VALUES ({row[0]}, {row[1]})")
             write(t, ("ins", row))
         elif kind == "upd_own":
-            out = core.run_stmt(cur, f"UPDATE {own} SET V = V + 1")
+            out = core.run_stmt(cur, f"UPDATE {P}{own} SET V = V + 1")
             write(own, ("upd",))
         elif kind == "del_own":
-            out = core.run_stmt(cur, f"DELETE FROM {own} WHERE ID % 2 = 0")
+            out = core.run_stmt(cur, f"DELETE FROM {P}{own} WHERE ID % 2 = 0")
             write(own, ("del",))
+        elif kind == "merge_own":
+            mid = next(_state["uid"]) if r.random() < 0.5 else min((i for (i, _v) in view(ci, own)[0]), default=next(_state["uid"]))
+            out = core.run_stmt(cur, f"MERGE INTO {P}{own} t USING (SELECT {mid} AS ID, 500 AS V) s ON t.ID = s.ID "
+                                     "WHEN MATCHED THEN UPDATE SET V = s.V WHEN NOT MATCHED THEN INSERT (ID, V) VALUES (s.ID, s.V)")
+            write(own, ("merge", mid))
         elif kind == "fail":
             o = core.run_stmt(cur, "SELECT * FROM no_such_table_c13")
             if o["ok"]:
@@ -242,7 +267,7 @@ def run_case(case: dict, env: core.Env) -> None:
             vc = curs[j][r.randint(0, 1)]
             for t in tables:
                 ok = view(j, t)
-                got = Counter(tuple(x) for x in vc.execute(f"SELECT ID, V FROM {t}").fetchall())
+                got = Counter(tuple(x) for x in vc.execute(f"SELECT ID, V FROM {P}{t}").fetchall())
                 env.count("cmp_own_view")
                 if j != ci and any(txn[x] is not None for x in range(k) if x != j):
                     env.count("cmp_other_view_during_txn")
